@@ -277,8 +277,20 @@ func c04Run(c *Check, pool *NodePool, w int, dir string, files map[string]string
 	res := nodeGraph(pool.Get(w), cases)
 	native := res[0]
 	if native.Err != nil && strings.HasPrefix(*native.Err, "SyntaxError") {
-		c.Sub("generator_invalid", 1)
-		return
+		// syntax that no installed engine runs natively (auto-accessors, decorators): the statement's second reference,
+		// "the same bundle built with tree shaking disabled", takes the place of native execution
+		ref := -1
+		for k, nm := range names {
+			if nm == "esm-noshake" {
+				ref = k + 1
+			}
+		}
+		if !strings.HasPrefix(label, "lowered:") || ref < 0 || (res[ref].Err != nil && strings.HasPrefix(*res[ref].Err, "SyntaxError")) {
+			c.Sub("generator_invalid", 1)
+			return
+		}
+		native = res[ref]
+		c.Sub("compared_with_unshaken_bundle", 1)
 	}
 	c.Distinct(strings.Join(native.Log, "\n"))
 	cmp := func(native, b graphRes) string {
@@ -364,6 +376,21 @@ func runC04(c *Check) {
 		files := map[string]string{"a.mjs": entry, "b.mjs": c04Module(j.stmts)}
 		c04Run(c, pool, w, filepath.Join(root, fmt.Sprintf("u%d", i)), files, j.label, nil)
 	})
+	// statements in syntax newer than the installed engines, lowered for es2021: reference = the unshaken bundle
+	lowered := []string{
+		"class C%N { static accessor x = %P }", "class C%N { static accessor [%P] = 1 }", "class C%N { static accessor #x = %P; static y = 1 }", "class C%N { accessor x = %P }",
+		"const c%N = class { static accessor x = %P };", "class C%N { static accessor x = 1; static accessor y = %P; accessor z = 2 }",
+		"function dec%N(v, ctx) { log('decorated', ctx.kind) } class D%N { @dec%N static m() {} }", "function dec%N(v, ctx) { log('decorated', ctx.kind) } @dec%N class D%N {}",
+		"function dec%N(v, ctx) { log('decorated', ctx.kind) } class D%N { @dec%N accessor a = 1 }", "class D%N { @(%P, (v, c) => v) static f = 1 }",
+	}
+	for i, st := range lowered {
+		files := map[string]string{"a.mjs": entry, "b.mjs": c04Module([]string{st})}
+		c04Run(c, pool, 0, filepath.Join(root, fmt.Sprintf("low%d", i)), files, "lowered:"+st, func(o *api.BuildOptions) { o.Target = api.ES2021 })
+		for j, st2 := range []string{c04Unused[0], c04Unused[12]} {
+			files := map[string]string{"a.mjs": entry, "b.mjs": c04Module([]string{st, st2})}
+			c04Run(c, pool, 0, filepath.Join(root, fmt.Sprintf("low%d-%d", i, j)), files, "lowered:"+st+" ## "+st2, func(o *api.BuildOptions) { o.Target = api.ES2021 })
+		}
+	}
 	// annotations
 	type ann struct {
 		name  string
